@@ -443,3 +443,118 @@ def rule_sibling_checks(chk, A):
                detail="`%s` is range-tested where it is computed at line(s) %s but used untested at line(s) %s of the same case" %
                       (t[:70], ",".join(str(l) for _, l in good), ",".join(str(l) for _, l in odd)), key="siblingcheck|%s|%s" % (reg[0][5:], t[:60]))
     # (groups with two or more members can legitimately disappear when the duplicated code is merged into a helper)
+
+
+def _norm(fn, e, inits=None, depth=0):
+    """structural rendering of an expression without casts / parentheses; immutable locals are replaced by their initialiser"""
+    x = fn.e(e)
+    if x is None or depth > 12:
+        return "?"
+    k = x["k"]
+    if k in ("cast", "paren") or (k == "construct" and len(x.get("args", [])) == 1):
+        return _norm(fn, x["sub"] if k != "construct" else x["args"][0], inits, depth + 1)
+    if k == "binop":
+        return "(%s%s%s)" % (_norm(fn, x["lhs"], inits, depth + 1), x["op"], _norm(fn, x["rhs"], inits, depth + 1))
+    if k == "unop":
+        return "%s%s" % (x["op"], _norm(fn, x["sub"], inits, depth + 1))
+    if k in ("int", "bool") or (isinstance(x.get("cv"), int) and k != "ref"):
+        return str(x.get("cv"))
+    if k == "ref":
+        if inits is not None and x.get("did") in inits:
+            return _norm(fn, inits[x["did"]], inits, depth + 1)
+        return x.get("name") or x.get("qn") or "?"
+    if k == "member":
+        return "%s.%s" % (_norm(fn, x.get("base"), inits, depth + 1), x.get("field"))
+    if k in ("call", "mcall", "opcall"):
+        args = ",".join(_norm(fn, a, inits, depth + 1) for a in x.get("args", []))
+        obj = (_norm(fn, x["obj"], inits, depth + 1) + ".") if x.get("obj") else ""
+        return "%s%s(%s)" % (obj, x.get("cn") or x.get("op"), args)
+    return re.sub(r"\s+", "", fn.text(e))
+
+
+def rule_shift_lossless(chk, A):
+    """an operand value that is scaled down by a data-dependent shift was shown to lose no bits under the SAME shift"""
+    from .must import Must
+    R = "R-SHIFT-LOSSLESS"
+    chk.rule(R, "a64 _emit: a local `v = E >> S` (E an offset / immediate of an operand, S not a literal) is packed only after a condition that "
+                "proves no bit was dropped under the same S: the round trip `(v << S) == E` (or Support::shl(v, S)), a low-bits test "
+                "`E & lsb_mask(S)`, or is_aligned(E, 1 << S) - S compared structurally with immutable locals expanded, so a test with the "
+                "instruction's base shift does not cover a shift that also depends on the register width")
+    emit = A["emit"]
+    assigned = set()
+    inits = {}
+    for i, x in emit.ex.items():
+        if x["k"] == "decl":
+            for v in x["vars"]:
+                if v.get("init"):
+                    inits[v["did"]] = v["init"]
+        elif x["k"] == "binop" and x["op"].endswith("=") and x["op"] not in ("==", "!=", "<=", ">="):
+            l = emit.e(emit.strip(x["lhs"]))
+            if l is not None and l["k"] == "ref" and "did" in l:
+                assigned.add(l["did"])
+        elif x["k"] == "unop" and x["op"] in ("++", "--", "&"):
+            l = emit.e(emit.strip(x["sub"]))
+            if l is not None and l["k"] == "ref" and "did" in l:
+                assigned.add(l["did"])
+    immut = {d: e for d, e in inits.items() if d not in assigned}
+    # candidates
+    cands = {}
+    for i, x in emit.ex.items():
+        if x["k"] != "decl":
+            continue
+        for v in x["vars"]:
+            if not v.get("init"):
+                continue
+            y = emit.e(emit.strip(v["init"]))
+            if y is None or y["k"] != "binop" or y["op"] != ">>":
+                continue
+            s_ = emit.e(emit.strip(y["rhs"]))
+            lhs = emit.e(emit.strip(y["lhs"]))
+            if s_ is None or isinstance(s_.get("cv"), int) or lhs is None or isinstance(lhs.get("cv"), int):
+                continue
+            lt = emit.text(y["lhs"])
+            if not re.search(r"offset|Imm|imm", lt):
+                continue
+            imm2 = {d: e for d, e in immut.items() if d != v["did"]}
+            cands[v["did"]] = {"decl": i, "name": v["name"], "S": _norm(emit, y["rhs"], imm2), "E": _norm(emit, y["lhs"], imm2), "imm": imm2}
+    chk.floor(R + ":candidates", len(cands), 6)
+
+    def facts_of(atom):
+        out = []
+        for j in emit.walk(atom):
+            y = emit.e(j)
+            if y is None:
+                continue
+            for did, c in cands.items():
+                # round trip: (v << S) cmp E   /   shl(v, S) cmp E
+                if y["k"] == "binop" and y["op"] in ("==", "!="):
+                    sides = [_norm(emit, y["lhs"], c["imm"]), _norm(emit, y["rhs"], c["imm"])]
+                    for a, b in (sides, sides[::-1]):
+                        if a in ("(%s<<%s)" % (c["name"], c["S"]), "shl(%s,%s)" % (c["name"], c["S"])) and b == c["E"]:
+                            out.append(("lossless", did))
+                if y["k"] == "binop" and y["op"] == "&":
+                    sides = [_norm(emit, y["lhs"], c["imm"]), _norm(emit, y["rhs"], c["imm"])]
+                    for a, b in (sides, sides[::-1]):
+                        if a == c["E"] and b in ("lsb_mask(%s)" % c["S"], "((1<<%s)-1)" % c["S"]):
+                            out.append(("lossless", did))
+                if y["k"] in ("call", "mcall") and y.get("cn") == "is_aligned" and len(y.get("args", [])) == 2:
+                    a, b = _norm(emit, y["args"][0], c["imm"]), _norm(emit, y["args"][1], c["imm"])
+                    if a == c["E"] and b == "(1<<%s)" % c["S"]:
+                        out.append(("lossless", did))
+        return out
+
+    def edge(b, si, atom, holds):
+        return facts_of(atom)              # the test was evaluated; one of its edges leaves (or falls back to another encoding)
+    m = Must(emit, None, edge)
+    n = 0
+    for i, x in sorted(emit.calls(lambda x: x["k"] == "mcall" and x.get("cn") == "add_imm" and x.get("args"))):
+        used = {(emit.e(j) or {}).get("did") for j in emit.walk(x["args"][0])} & set(cands)
+        for did in used:
+            n += 1
+            c = cands[did]
+            ok = ("lossless", did) in (m.before(i) or frozenset())
+            chk.ob(R, "a64::_emit|%s@%d" % (c["name"], n), ok, loc=emit.loc(i),
+                   detail="`%s` = %s >> %s is packed, but no condition on the way proved with the same shift that the dropped bits were zero: an "
+                          "offset that is not a multiple of the real scale is silently rounded" % (c["name"], c["E"][:50], c["S"][:50]),
+                   key="shiftlossless|%s|%s" % (c["name"], c["S"][:40]))
+    chk.floor(R + ":packs", n, 6)
